@@ -43,6 +43,7 @@ type Addr struct {
 	Ref  Term       // heap reference / array base
 	Idx  Term       // index (addrArr)
 	Path []int
+	Null Term // "" = never nil; otherwise a Bool term: this interior pointer is the nil pointer (phi of nil and &s[i])
 }
 
 // ---------------------------------------------------------------------------------------------
@@ -1289,6 +1290,24 @@ func (e *Exec) mergeVals(vs []Val, conds []Term, hint string) Val {
 	}
 	// interior addresses: merge componentwise if same shape
 	allAddr := true
+	var someAddr *Addr
+	for _, v := range vs {
+		if v.Addr != nil && someAddr == nil && (v.Addr.Kind == addrArr || len(v.Addr.Path) > 0) {
+			someAddr = v.Addr
+		}
+	}
+	if someAddr != nil {
+		// `var p *T; ... p = &s[i]`: the nil constant joins the merge as a null interior pointer of the same shape
+		cp := make([]Val, len(vs))
+		copy(cp, vs)
+		for i, v := range cp {
+			if v.Addr == nil && v.Term == "0" && len(v.Tup) == 0 {
+				cp[i] = Val{T: v.T, Term: "0", Addr: &Addr{Kind: someAddr.Kind, Root: someAddr.Root, Ref: "0", Idx: "0", Path: someAddr.Path, Null: "true"}}
+			}
+		}
+		vs = cp
+		v0 = vs[0]
+	}
 	for _, v := range vs {
 		if v.Addr == nil {
 			allAddr = false
@@ -1318,6 +1337,29 @@ func (e *Exec) mergeVals(vs []Val, conds []Term, hint string) Val {
 			na.Ref = e.define(hint, "Int", refs)
 			if a0.Kind == addrArr {
 				na.Idx = e.define(hint, "Int", idxs)
+			}
+			anyNull := false
+			for _, v := range vs {
+				if v.Addr.Null != "" {
+					anyNull = true
+				}
+			}
+			if anyNull {
+				nl := func(a *Addr) Term {
+					if a.Null == "" {
+						return "false"
+					}
+					return a.Null
+				}
+				var nulls Term
+				for i := len(vs) - 1; i >= 0; i-- {
+					if i == len(vs)-1 {
+						nulls = nl(vs[i].Addr)
+					} else {
+						nulls = Ite(conds[i], nl(vs[i].Addr), nulls)
+					}
+				}
+				na.Null = e.define(hint, "Bool", nulls)
 			}
 			return Val{T: v0.T, Addr: na, Term: na.Ref}
 		}
